@@ -278,18 +278,14 @@ func (ts *TStateView) Remove(ctx context.Context, key []byte) error {
 		pastAllocates: chunks(ts.allocates, k),
 		pastWrites:    chunks(ts.writes, k),
 	})
-	if _, ok := ts.allocates[k]; ok {
-		// If delete after allocating in the same view, it is
-		// as if nothing happened.
-		delete(ts.allocates, k)
-		delete(ts.writes, k)
-		delete(ts.pendingChangedKeys, k)
-	} else {
-		// If this is not a new allocation, we mark as an
-		// explicit delete.
-		ts.writes[k] = 0
-		ts.pendingChangedKeys[k] = maybe.Nothing[[]byte]()
-	}
+	// If delete after allocating in the same view, the allocation
+	// is undone.
+	delete(ts.allocates, k)
+	// Mark as an explicit delete. If the key does not exist in the
+	// parent view either, the [isUnchanged] case below drops the record
+	// again (it is as if nothing happened).
+	ts.writes[k] = 0
+	ts.pendingChangedKeys[k] = maybe.Nothing[[]byte]()
 	if isUnchanged {
 		delete(ts.allocates, k)
 		delete(ts.writes, k)
